@@ -14,7 +14,7 @@ Two consumers: ``to_dynamic`` (oracle side: dynamic message over the INPUT descr
 ``request={...}``; well-known leaf types are given as pb2 instances).
 """
 from google.protobuf import descriptor as _d
-from google.protobuf import duration_pb2, field_mask_pb2, timestamp_pb2, wrappers_pb2
+from google.protobuf import duration_pb2, field_mask_pb2, struct_pb2, timestamp_pb2, wrappers_pb2
 
 FD = _d.FieldDescriptor
 
@@ -32,16 +32,18 @@ WKT_LEAF = {
     "google.protobuf.Int32Value": wrappers_pb2.Int32Value,
     "google.protobuf.UInt32Value": wrappers_pb2.UInt32Value,
     "google.protobuf.StringValue": wrappers_pb2.StringValue,
+    "google.protobuf.Value": struct_pb2.Value,
 }
 
 # well-known types whose proto3 JSON form is a plain string / primitive (not an object)
 WKT_LEAF_JSON = {"google.protobuf.Timestamp", "google.protobuf.Duration", "google.protobuf.FieldMask",
                  "google.protobuf.Int32Value", "google.protobuf.UInt32Value", "google.protobuf.StringValue",
                  "google.protobuf.Int64Value", "google.protobuf.UInt64Value", "google.protobuf.BoolValue",
-                 "google.protobuf.FloatValue", "google.protobuf.DoubleValue", "google.protobuf.BytesValue"}
+                 "google.protobuf.FloatValue", "google.protobuf.DoubleValue", "google.protobuf.BytesValue",
+                 "google.protobuf.Value"}
 
 # message types never filled by the random valuation generator (their JSON form needs a type registry)
-UNGENERATED = {"google.protobuf.Any", "google.protobuf.Struct", "google.protobuf.Value", "google.protobuf.ListValue"}
+UNGENERATED = {"google.protobuf.Any", "google.protobuf.Struct", "google.protobuf.ListValue"}
 
 
 def _leaf_type(fd):
@@ -172,6 +174,8 @@ def _rand_msg(rng, fd, depth, max_depth):
         return {"value": rng.randint(1, 50)}
     if fn == "google.protobuf.StringValue":
         return {"value": rand_string(rng)}
+    if fn == "google.protobuf.Value":
+        return rng.choice([{"string_value": rand_string(rng)}, {"number_value": rng.randint(-50, 50) / 4.0}, {"bool_value": True}])
     if fn == "google.protobuf.FieldMask":
         return {"paths": [rng.choice(["name", "size", "a.b", "tags"]) for _ in range(rng.randint(1, 2))]}
     return rand_valuation(rng, fd.message_type, depth + 1, max_depth, p_field=0.5)
